@@ -112,22 +112,133 @@ func CallArgs(c ssa.CallInstruction) []ssa.Value {
 
 type Edge struct{ From, To int }
 
-// Reach computes the blocks reachable from block `from` in fn's CFG with the
-// given edges removed. prev gives a BFS tree for witnesses.
+// tEdge is an edge of the jump-threaded view of a function's CFG: go/ssa builds
+// a short-circuit expression used as a value (`case a && b:`, `ok := a || b`)
+// as a join block that holds only a boolean phi and the If testing it. Such a
+// join is threaded away: a predecessor that contributes a constant goes
+// straight to the matching successor; a predecessor that contributes the last
+// operand gets two conditional edges on that operand. Every rule then sees one
+// atomic condition per edge, as it does for if statements.
+type tEdge struct {
+	to    int
+	cond  ssa.Value // nil: unconditional
+	truth bool
+	ifi   *ssa.If
+}
+
+var threadCache = map[*ssa.Function][][]tEdge{}
+
+func scJoin(b *ssa.BasicBlock) (*ssa.Phi, *ssa.If) {
+	if len(b.Instrs) < 2 || len(b.Succs) != 2 || b.Succs[0] == b.Succs[1] {
+		return nil, nil
+	}
+	ph, ok := b.Instrs[0].(*ssa.Phi)
+	if !ok {
+		return nil, nil
+	}
+	if bt, isB := ph.Type().Underlying().(*types.Basic); !isB || bt.Kind() != types.Bool {
+		return nil, nil
+	}
+	ifi, ok := b.Instrs[len(b.Instrs)-1].(*ssa.If)
+	if !ok || ifi.Cond != ssa.Value(ph) {
+		return nil, nil
+	}
+	for _, in := range b.Instrs[1 : len(b.Instrs)-1] {
+		if _, isDbg := in.(*ssa.DebugRef); !isDbg {
+			return nil, nil
+		}
+	}
+	if ph.Referrers() != nil {
+		for _, r := range *ph.Referrers() {
+			switch r.(type) {
+			case *ssa.If, *ssa.DebugRef:
+			default:
+				return nil, nil
+			}
+		}
+	}
+	return ph, ifi
+}
+
+func tsuccs(fn *ssa.Function) [][]tEdge {
+	if t, ok := threadCache[fn]; ok {
+		return t
+	}
+	out := make([][]tEdge, len(fn.Blocks))
+	for _, p := range fn.Blocks {
+		var base []tEdge
+		var ifi *ssa.If
+		if len(p.Instrs) > 0 {
+			ifi, _ = p.Instrs[len(p.Instrs)-1].(*ssa.If)
+		}
+		if ifi != nil && len(p.Succs) == 2 && p.Succs[0] != p.Succs[1] {
+			base = []tEdge{{p.Succs[0].Index, ifi.Cond, true, ifi}, {p.Succs[1].Index, ifi.Cond, false, ifi}}
+		} else {
+			for _, sc := range p.Succs {
+				base = append(base, tEdge{to: sc.Index})
+			}
+		}
+		var edges []tEdge
+		for _, e := range base {
+			cur := e
+			from := p
+			for hop := 0; hop < 4; hop++ {
+				sb := fn.Blocks[cur.to]
+				ph, jif := scJoin(sb)
+				if ph == nil {
+					break
+				}
+				k, n := -1, 0
+				for i, pr := range sb.Preds {
+					if pr == from {
+						k, n = i, n+1
+					}
+				}
+				if n != 1 || from != p {
+					break
+				}
+				ev := ph.Edges[k]
+				if c, isK := ev.(*ssa.Const); isK && c.Value != nil && c.Value.Kind() == constant.Bool {
+					if constant.BoolVal(c.Value) {
+						cur.to = sb.Succs[0].Index
+					} else {
+						cur.to = sb.Succs[1].Index
+					}
+					break
+				}
+				if cur.cond == nil {
+					edges = append(edges, tEdge{sb.Succs[0].Index, ev, true, jif}, tEdge{sb.Succs[1].Index, ev, false, jif})
+					cur.to = -1
+				}
+				break
+			}
+			if cur.to >= 0 {
+				edges = append(edges, cur)
+			}
+		}
+		out[p.Index] = edges
+	}
+	threadCache[fn] = out
+	return out
+}
+
+// Reach computes the blocks reachable from block `from` in fn's (jump-threaded)
+// CFG with the given edges removed. prev gives a BFS tree for witnesses.
 func Reach(fn *ssa.Function, from *ssa.BasicBlock, cut map[Edge]bool) (seen map[int]bool, prev map[int]int) {
 	seen = map[int]bool{from.Index: true}
 	prev = map[int]int{}
-	q := []*ssa.BasicBlock{from}
+	ts := tsuccs(fn)
+	q := []int{from.Index}
 	for len(q) > 0 {
 		b := q[0]
 		q = q[1:]
-		for _, s := range b.Succs {
-			if cut[Edge{b.Index, s.Index}] || seen[s.Index] {
+		for _, e := range ts[b] {
+			if cut[Edge{b, e.to}] || seen[e.to] {
 				continue
 			}
-			seen[s.Index] = true
-			prev[s.Index] = b.Index
-			q = append(q, s)
+			seen[e.to] = true
+			prev[e.to] = b
+			q = append(q, e.to)
 		}
 	}
 	return
@@ -239,6 +350,7 @@ func ReachF(fn *ssa.Function, from *ssa.BasicBlock, cut map[Edge]bool) (seen map
 	seen = map[int]bool{from.Index: true}
 	prev = map[int]int{}
 	done := map[state]bool{}
+	ts := tsuccs(fn)
 	start := state{from.Index, from.Index, -1}
 	done[start] = true
 	q := []state{start}
@@ -246,15 +358,12 @@ func ReachF(fn *ssa.Function, from *ssa.BasicBlock, cut map[Edge]bool) (seen map
 		st := q[0]
 		q = q[1:]
 		b := fn.Blocks[st.b]
-		var ifi *ssa.If
-		if len(b.Instrs) > 0 {
-			ifi, _ = b.Instrs[len(b.Instrs)-1].(*ssa.If)
-		}
-		for si, s := range b.Succs {
+		for _, e := range ts[st.b] {
+			s := fn.Blocks[e.to]
 			if cut[Edge{b.Index, s.Index}] {
 				continue
 			}
-			if ifi != nil && len(b.Succs) == 2 && st.op >= 0 {
+			if e.cond != nil && st.op >= 0 {
 				infeasible := false
 				ob := fn.Blocks[st.ob]
 				for _, in := range ob.Instrs {
@@ -269,7 +378,7 @@ func ReachF(fn *ssa.Function, from *ssa.BasicBlock, cut map[Edge]bool) (seen map
 					if !isK {
 						continue
 					}
-					if outcome, known := condOutcomeFor(ifi.Cond, ph, k); known && outcome != (si == 0) {
+					if outcome, known := condOutcomeFor(e.cond, ph, k); known && outcome != e.truth {
 						infeasible = true
 					}
 				}
@@ -278,7 +387,7 @@ func ReachF(fn *ssa.Function, from *ssa.BasicBlock, cut map[Edge]bool) (seen map
 				}
 			}
 			ns := state{s.Index, st.ob, st.op}
-			if len(s.Preds) != 1 {
+			if len(s.Preds) != 1 || s.Preds[0] != b {
 				pi := -1
 				for k, p := range s.Preds {
 					if p == b {
@@ -352,6 +461,11 @@ type CondEdge struct {
 	If    *ssa.If
 	Cond  ssa.Value // peeled core condition
 	Truth bool      // value of Cond on this edge
+	// RawCond/RawTruth: the condition as written (not peeled) and its value on
+	// this edge; for edges of the jump-threaded view this is the operand the
+	// edge depends on, not the phi the If instruction tests.
+	RawCond  ssa.Value
+	RawTruth bool
 }
 
 // Peel strips negations and comparisons with boolean constants.
@@ -394,17 +508,15 @@ func Peel(v ssa.Value) (ssa.Value, bool) {
 // control flow, so each If already tests one atom.
 func CondEdges(fn *ssa.Function) []CondEdge {
 	var out []CondEdge
+	ts := tsuccs(fn)
 	for _, b := range fn.Blocks {
-		if len(b.Instrs) == 0 {
-			continue
+		for _, e := range ts[b.Index] {
+			if e.cond == nil {
+				continue
+			}
+			core, neg := Peel(e.cond)
+			out = append(out, CondEdge{Edge{b.Index, e.to}, e.ifi, core, e.truth != neg, e.cond, e.truth})
 		}
-		ifi, ok := b.Instrs[len(b.Instrs)-1].(*ssa.If)
-		if !ok || len(b.Succs) != 2 {
-			continue
-		}
-		core, neg := Peel(ifi.Cond)
-		out = append(out, CondEdge{Edge{b.Index, b.Succs[0].Index}, ifi, core, !neg})
-		out = append(out, CondEdge{Edge{b.Index, b.Succs[1].Index}, ifi, core, neg})
 	}
 	return out
 }
@@ -412,13 +524,19 @@ func CondEdges(fn *ssa.Function) []CondEdge {
 // DominatingConds returns the conditional edges that dominate block target.
 func DominatingConds(fn *ssa.Function, target *ssa.BasicBlock) []CondEdge {
 	var out []CondEdge
-	for _, ce := range CondEdges(fn) {
+	all := CondEdges(fn)
+	for _, ce := range all {
 		if ce.Edge.From == ce.Edge.To {
 			continue
 		}
-		// both successors identical => edge carries no information
-		b := fn.Blocks[ce.Edge.From]
-		if b.Succs[0] == b.Succs[1] {
+		// both outcomes lead to the same block => the edge carries no information
+		same := false
+		for _, o := range all {
+			if o.Edge == ce.Edge && o.Cond == ce.Cond && o.Truth != ce.Truth {
+				same = true
+			}
+		}
+		if same {
 			continue
 		}
 		if EdgeDominates(fn, ce.Edge, target) {
